@@ -316,6 +316,13 @@ func c08BaseModels() []gen.Tagged {
 				{Name: "p", Rw: ref.T(), Restr: []ref.Restriction{{Type: "doc"}}},
 			}},
 		}, Conds: []ref.Condition{{Name: "k", Module: "m", File: "f.fga", Params: []ref.Param{{Name: "l", Type: "list", Generic: "string"}, {Name: "m", Type: "map", Generic: "int"}, {Name: "s", Type: "bool"}}, Expr: "s"}}}},
+		// not DSL-expressible: the direct assignment in subtract / non-first positions, nested unary operators
+		{Tag: "nonconform", M: &ref.Model{Schema: "1.1", Types: []ref.TypeDef{{Name: "user"}, {Name: "doc", Rels: []ref.Relation{
+			{Name: "a", Rw: ref.D(ref.U(ref.C("b"), ref.TT("b", "p")), ref.T()), Restr: []ref.Restriction{{Type: "user"}}},
+			{Name: "b", Rw: ref.U(ref.U(ref.C("a")), ref.D(ref.T(), ref.C("a"))), Restr: []ref.Restriction{{Type: "user"}}},
+			{Name: "c", Rw: ref.I(ref.I(ref.C("a"), ref.C("b")), ref.T(), ref.T()), Restr: []ref.Restriction{{Type: "user"}}},
+			{Name: "p", Rw: ref.T(), Restr: []ref.Restriction{{Type: "doc"}}},
+		}}}}},
 		{Tag: "small", M: &ref.Model{Schema: "1.1", Types: []ref.TypeDef{{Name: "user"}, {Name: "doc", Rels: []ref.Relation{
 			{Name: "a", Rw: ref.I(ref.C("b"), ref.T()), Restr: []ref.Restriction{{Type: "user"}}},
 			{Name: "b", Rw: ref.T(), Restr: []ref.Restriction{{Type: "user"}, {Type: "doc", Relation: "b"}}},
@@ -375,7 +382,7 @@ func c08Faults(ctx *core.Ctx) {
 			run(i)
 		}
 		pairLimit := n
-		if !ctx.Thorough() && bm.Tag == "full" {
+		if !ctx.Thorough() && bm.Tag != "small" {
 			pairLimit = 0 // quick: pairs on the small base model only
 		}
 		for i := 0; i < pairLimit; i++ {
@@ -677,7 +684,7 @@ func init() {
 		ID: "C08",
 		Rule: "(a) every string of <= 3 lexemes over a 38-lexeme DSL alphabet (length 3 over a 30-lexeme alphabet in quick) appended to 10 valid document prefixes, through TransformDSLToProto/JSON, TransformModularDSLToProto and as member of 1- and 2-file module sets; accepted texts continue through printer and both graph builders; " +
 			"every string of <= 3/4 tokens over JSON and YAML token alphabets through TransformJSONStringToDSL / TransformModFile; every JSON value of two valid model documents replaced by 9 other JSON values. " +
-			"(b) fault enumeration on protobufs: every single and every pair (quick: pairs on the small base model) of degradations (pointer nil / empty, slice nil / drop / nil element, map nil / nil value / renamed key, string empty, oneof nil / nil payload, enum 0 / out of range) of two base models through printer (both options), plain graph (+Reversed, GetDOT, GetCycles, PathExists) and weighted builder. " +
+			"(b) fault enumeration on protobufs: every single and every pair (quick: pairs on the small base model) of degradations (pointer nil / empty, slice nil / drop / nil element, map nil / nil value / renamed key, string empty, oneof nil / nil payload, enum 0 / out of range) of three base models (one of them not DSL-expressible: direct assignment in subtract and non-first positions, nested unary operators) through printer (both options), plain graph (+Reversed, GetDOT, GetCycles, PathExists) and weighted builder. " +
 			"(c) pumping: every fragment of <= 2 lexemes (thorough: + every 3rd 3-lexeme fragment) repeated n and 2n times (n = 32 / 64) in 10 insertion contexts, and 4 scaled model families: deterministic step counts from build-time instrumentation, growth exponent log2(S(2n)/S(n)) <= 2.5, horizon 5e7 steps. " +
 			"states = outcome classes, non-trivial = distinct accepted texts and fault names",
 		Assume: []string{
